@@ -104,11 +104,16 @@ def expected_client_result(stream: bytes, closed_cleanly: bool, cap: int):
         for part in meta.split(";")[1:]:
             k, s, v = part.strip().partition("=")
             if s and k.strip().lower() == "charset":
+                if k != k.strip() or v != v.strip():
+                    # RFC 2045: no whitespace around '=' in a parameter; what a client makes of it is grey
+                    return "undecided", "whitespace-around-equals-in-parameter"
                 charset = v.strip().strip("\"'")
                 break
         try:
             codecs.lookup(charset)
         except LookupError:
+            if not rest:
+                return "undecided", "unknown-charset-with-empty-body"
             return "error", "unknown-charset"
         try:
             return "response", (status, meta, rest.decode(charset))
